@@ -1238,6 +1238,9 @@ class Interp:
     def run_loop(self, target, iterable, body, node, orelse=None):
         """Run ``body`` (a callable executing the loop body in the current frame) over an iterable."""
         segs = self.segments(iterable, node)
+        return self.run_segs(target, segs, body, node)
+
+    def run_segs(self, target, segs, body, node):
         broke = False
         for s in segs:
             if s[0] == "one":
@@ -1258,9 +1261,31 @@ class Interp:
                 if self.run_generic(target, ("each", b, ("members", s[1]), PTRUE, ElemV(b, "plain")), body, node):
                     broke = True
                     break
+            elif s[0] == "each*":
+                _, b, fam, g, inner = s
+
+                def nested(b=b, inner=inner):
+                    ev = self.frame.env.get("$outer")
+                    seg = F.subst_any(inner, {b: ev.var}) if inner[0] != "one" else inner
+                    seg = self._inst_seg(inner, {b: ev.var})
+                    if self.run_segs(target, [seg], body, node):
+                        raise BreakSig()
+
+                if self.run_generic(ast.Name(id="$outer", ctx=ast.Store()), ("each", b, fam, g, ElemV(b, "outer")), nested, node):
+                    broke = True
+                    break
             else:
                 self.err(node, f"unknown segment {s[0]}")
         return broke
+
+    def _inst_seg(self, seg, mapping):
+        if seg[0] == "one":
+            return ("one", self.inst(seg[1], mapping))
+        if seg[0] == "each":
+            return ("each", seg[1], F.subst_any(seg[2], mapping), F.subst_any(seg[3], mapping), self.inst(seg[4], mapping))
+        if seg[0] == "each*":
+            return ("each*", seg[1], F.subst_any(seg[2], mapping), F.subst_any(seg[3], mapping), self._inst_seg(seg[4], mapping))
+        return F.subst_any(seg, mapping)
 
     def run_generic(self, target, seg, body, node) -> bool:
         """Body of a loop over a symbolic family: enumerate all body paths for a generic element on clones
